@@ -350,12 +350,17 @@ class FnTranslator:
         self.selfk = f["self"]
         if f["self"] in ("val", "valmut"):
             raise RsError("by-value self receiver is outside the subset")
+        self.trait_self = False
         if f["self"]:
-            env["self"] = ("struct", self.impl)
             if self.impl not in u.fi.structs:
-                raise RsError("impl type %s is not a struct of this file" % self.impl)
-            u.used_fields.setdefault(self.impl, [])
-            params.append(("self", ("struct", self.impl)))
+                # default method of a trait: `self` may only appear as the receiver of policy_err!
+                if f["self"] != "ref": raise RsError("&mut self in a trait default method")
+                self.trait_self = True
+                self.selfk = None
+            else:
+                env["self"] = ("struct", self.impl)
+                u.used_fields.setdefault(self.impl, [])
+                params.append(("self", ("struct", self.impl)))
         self.mut_params = []
         for pat, ty, ismut, refmut in f["params"]:
             if pat[0] != "pvar": raise RsError("parameter pattern outside the subset")
@@ -363,8 +368,9 @@ class FnTranslator:
             env[pat[1]] = t
             params.append((pat[1], t))
             if refmut: self.mut_params.append(pat[1])
-        if self.mut_params:
-            raise RsError("&mut parameters other than self are outside the subset")
+        self.params_pre = params
+        for mp in self.mut_params:
+            if env[mp][0] != "struct": raise RsError("&mut parameter of a non-struct type is outside the subset")
         self.ret = u.resolve(f["ret"], self.impl)
         self.is_result = self.ret[0] == "result"
         self.val_ty = self.ret[1] if self.is_result else self.ret
@@ -378,6 +384,8 @@ class FnTranslator:
         info.params, info.ret, info.val_ty = params, self.ret, self.val_ty
         info.is_result = self.is_result
         info.mut_self = self.selfk == "mut"
+        info.mut_params = list(self.mut_params)
+        info.has_self = bool(params) and params[0][0] == "self"
         info.monadic = self.is_result or monadic(ir)
         info.exts = self.exts
         info.ir = ir
@@ -435,18 +443,23 @@ class FnTranslator:
             info = self.u.get_fn(self.impl, m)
             if info.mut_self: self.selfk = "mut"
 
+    def out_parts(self):
+        parts = []
+        if self.selfk == "mut": parts.append(("self", ("struct", self.impl)))
+        for mp in self.mut_params:
+            parts.append((mp, dict(self.params)[mp]))
+        return parts
+
     def out_type(self):
-        if self.selfk == "mut":
-            if self.val_ty == UNIT: return ("struct", self.impl)
-            return ("tuple", [("struct", self.impl), self.val_ty])
-        return self.val_ty
+        parts = [t for _, t in self.out_parts()]
+        if self.val_ty != UNIT or not parts: parts.append(self.val_ty)
+        return parts[0] if len(parts) == 1 else ("tuple", parts)
 
     def pack(self, env, term):
         """the value returned by the Lean function for Rust return value `term`"""
-        if self.selfk == "mut":
-            if self.val_ty == UNIT: return "self"
-            return "(self, %s)" % term
-        return term
+        parts = [lid(n) for n, _ in self.out_parts()]
+        if self.val_ty != UNIT or not parts: parts.append(term)
+        return parts[0] if len(parts) == 1 else "(" + ", ".join(parts) + ")"
 
     # ---- finalisers
     def fin_return(self, env, tail):
@@ -494,8 +507,8 @@ class FnTranslator:
             pre = []
             r = self.call_any(e, env, pre, want_result=True)
             if r is not None and r[2] == "comp":
-                if self.selfk == "mut":
-                    raise RsError("tail call of a Result function from a &mut self method")
+                if self.selfk == "mut" or self.mut_params:
+                    raise RsError("tail call of a Result function from a method that returns updated state")
                 return self.wrap(pre, MCall(r[0]))
         raise RsError("Result-typed tail expression outside the subset: %s" % e[0])
 
@@ -581,8 +594,13 @@ class FnTranslator:
         return acc
 
     def is_mut_self_call(self, e):
-        if e[1] == ("path", ["self"]) and self.impl:
-            k = self.u.fi.fns.get((self.impl, e[2]))
+        impl = None
+        if e[1] == ("path", ["self"]) and self.impl: impl = self.impl
+        elif e[1][0] == "path" and len(e[1][1]) == 1 and e[1][1][0] in getattr(self, "mut_params", []):
+            t = dict(self.params_pre).get(e[1][1][0])
+            if t and t[0] == "struct": impl = t[1]
+        if impl:
+            k = self.u.fi.fns.get((impl, e[2]))
             if isinstance(k, int):
                 t = self.u.fi.toks
                 j = k
@@ -813,6 +831,7 @@ class FnTranslator:
         if name == "policy_err":
             a = split_macro_args(toks, self.u.rel)
             if a[0] != ("path", ["self"]): raise RsError("policy_err! on something else than self")
+            if not (self.trait_self or "self" in env): raise RsError("policy_err! without self")
             tag, t = self.expr(a[1], env, pre, ("str",))
             self.check_ty(t, ("str",), "policy_err! tag")
             if not self.is_result: raise RsError("policy_err! in a function that does not return Result")
@@ -1251,7 +1270,7 @@ class FnTranslator:
             term, t = self.expr(x, env, pre, None)
         if t[0] == "opt":
             if self.is_result or self.val_ty[0] != "opt": raise RsError("? on an Option in a function that does not return Option")
-            if self.selfk == "mut": raise RsError("? on Option in a &mut self method")
+            if self.selfk == "mut" or self.mut_params: raise RsError("? on Option in a method that returns updated state")
             v = self.fresh()
             pre.append(("optq", v, term))
             return v, t[1]
@@ -1276,6 +1295,7 @@ class FnTranslator:
         return self.mcall(e, env, pre, want)
 
     def call_translated(self, info, args_terms, env, pre, self_term=None):
+        if getattr(info, "mut_params", None): raise RsError("call of a function with &mut parameters is outside the subset")
         for x in info.exts: self.add_ext(*x)
         for o in info.needs_deq:
             if o not in self.needs_deq: self.needs_deq.append(o)
@@ -1382,6 +1402,22 @@ class FnTranslator:
             return self.call_translated(info, a, env, pre, "self")
         if recv[0] == "path" and len(recv[1]) == 1 and recv[1][0] not in env and recv[1][0] != "self":
             raise RsError("method call on unknown %s" % recv[1][0])
+        if recv[0] == "path" and len(recv[1]) == 1 and recv[1][0] in env and env[recv[1][0]][0] == "struct" \
+                and (env[recv[1][0]][1], m) in self.u.fi.fns and m != "clone":
+            v = recv[1][0]
+            info = self.u.get_fn(env[v][1], m)
+            if info.mut_params: raise RsError("callee with &mut parameters")
+            a = self.args_for(info, args, env, pre)
+            if info.mut_self:
+                if v not in self.mut_params: raise RsError("&mut self method on a receiver that is not a &mut parameter")
+                if info.is_result: raise RsError("Result-returning &mut method on a parameter")
+                term, t, kind = self.call_translated(info, a, env, pre, lid(v))
+                if info.val_ty == UNIT:
+                    pre.append(("let", lid(v), term)); return "()", UNIT, "val"
+                r = self.fresh("r")
+                pre.append(("let", "(%s, %s)" % (lid(v), r), term))
+                return r, info.val_ty, "val"
+            return self.call_translated(info, a, env, pre, lid(v))
         # place-mutating Option::take
         if m == "take" and not args:
             base, bt = self.expr(recv, env, pre, None)
